@@ -520,6 +520,14 @@ impl Timestamp {
     /// ```
     #[inline]
     pub const fn constant(mut second: i64, mut nanosecond: i32) -> Timestamp {
+        if second < UnixSeconds::MIN_REPR || second > UnixSeconds::MAX_REPR {
+            panic!("seconds out of range for a timestamp");
+        }
+        if nanosecond < FractionalNanosecond::MIN_REPR
+            || nanosecond > FractionalNanosecond::MAX_REPR
+        {
+            panic!("nanoseconds must be in the range -999999999..=999999999");
+        }
         if second == UnixSeconds::MIN_REPR && nanosecond < 0 {
             panic!("nanoseconds must be >=0 when seconds are minimal");
         }
